@@ -192,8 +192,11 @@ def fam_hostile(rnd, i, thorough):
     if rnd.random() < 0.6:
         b["procs"]["v1"] = {"kind": "script", "ops": [{"m": rnd.choice(PERSISTED[:2]), "tag": 50 + k, "size": 8} for k in range(rnd.choice([1, 2]))]}
     b["id"] = "hostile-%d" % i
-    if rnd.random() < 0.12:
+    r = rnd.random()
+    if r < 0.12:
         b["random"]["mute"] = ["SUBACK-miscount"]   # the broker answers SUBSCRIBE with one return code too many
+    elif r < 0.24:
+        b["random"]["mute"] = ["SUBACK-badcode"]    # ... or with a return code the protocol does not have
     inj = []
     for _ in range(rnd.choice([1, 1, 2, 3])):
         if rnd.random() < 0.15:
@@ -240,12 +243,20 @@ MC = {
     # forbidden state (ExportBad); replayed on the real code they reproduce the defect if it ever returns
     "devF25": dict(script="ScriptPings2", dev="F25", bad=True, amax=2, emax=2, conns=2, dial=0, write=0, read=1, store=0, calls=4, k_quick=1, k_thorough=1),
     "damage3": dict(script="ScriptQ222", script2="Gen2None", stops=1, damage=1, amax=2, emax=3, conns=2, dial=0, write=0, read=0, store=0, calls=6, k_quick=400, k_thorough=40),
+    "disc":  dict(script="ScriptDisc", amax=2, emax=2, conns=2, dial=1, write=1, read=0, store=0, calls=4, k_quick=60, k_thorough=6),
+    "discreq": dict(script="ScriptDiscReq", amax=2, emax=2, conns=2, dial=0, write=1, read=0, store=0, calls=3, k_quick=120, k_thorough=12),
+    "damage5": dict(script="ScriptQ1x5", script2="Gen2None", stops=1, damage=2, amax=5, emax=2, conns=2, dial=0, write=0, read=0, store=0, calls=6, k_quick=2000, k_thorough=200),
+    "damage24": dict(script="ScriptQ2x4", script2="Gen2None", stops=1, damage=1, amax=2, emax=4, conns=2, dial=0, write=0, read=0, store=0, calls=7, k_quick=6000, k_thorough=600, thorough_only=True),
+    "inrestart": dict(script="ScriptNone", script2="Gen2None", inmsgs="In22", stops=1, amax=2, emax=2, conns=3, dial=0, write=1, read=1, store=0, calls=8, k_quick=100, k_thorough=10),
+    "q12w2": dict(script="ScriptQ12", amax=2, emax=2, conns=2, dial=0, write=2, read=0, store=0, calls=4, k_quick=25, k_thorough=3),
+    "quit":  dict(script="ScriptQuit", amax=2, emax=2, conns=2, dial=0, write=0, read=1, store=0, calls=4, k_quick=150, k_thorough=15),
+    "unsub": dict(script="ScriptUnsub", amax=2, emax=2, conns=2, dial=0, write=1, read=1, store=0, calls=4, k_quick=60, k_thorough=6),
     "mixreq": dict(script="ScriptMixReq", amax=2, emax=2, conns=2, dial=1, write=1, read=0, store=0, calls=4, k_quick=25, k_thorough=3),
 }
 MC_FOR = {
-    "C01": ["one", "q2"], "C03": ["q2"], "C05": ["two"], "C10": ["one", "mixreq"], "C12": ["close", "reqclose"], "C17": ["max1", "one"],
-    "C18": ["one", "req"], "C14": ["req", "close"], "C08": ["mixreq", "two"], "C11": ["req", "pings", "devF25"],
-    "C04": ["in22", "in"], "C07": ["in", "in22"], "C13": ["in"], "C02": ["restart", "restart2"], "C16": ["damage", "damage3"],
+    "C01": ["one", "q2"], "C03": ["q2"], "C05": ["two"], "C10": ["one", "mixreq"], "C12": ["close", "reqclose", "disc", "discreq"], "C17": ["max1", "one"],
+    "C18": ["one", "req"], "C14": ["req", "close", "quit", "unsub"], "C08": ["mixreq", "two", "q12w2"], "C11": ["req", "pings", "quit", "unsub", "devF25"],
+    "C04": ["in22", "in", "inrestart"], "C07": ["in", "in22", "inrestart"], "C13": ["in"], "C02": ["restart", "restart2"], "C16": ["damage", "damage3", "damage5", "damage24"],
 }
 INVARIANTS = ("TypeOK C01_NoForgedCompletion C03_ExactlyOnceDelivery C05_WireOrderIsIdOrder C07_AckedOnlyIfReturned C08_WholePackets C12_Signals C17_Bounded "
               "C18_ConnectFirst C11_PongIsOwn C02_AdoptMatchesLive C02_NoWarnings C16_ResendFindsRecords C16_PendingAreStored C16_NoKeyCollision")
@@ -257,13 +268,14 @@ LIVE = {
     "live_f4":    ("ScriptF4",    4, 0, 1, 0, 0, 8, "C10_ReaderProgress C01_Drained"),
     "live_req":   ("ScriptReq",   3, 0, 1, 0, 0, 6, "C11_Returns C10_ReaderProgress"),
     "live_close": ("ScriptClose", 2, 0, 1, 0, 0, 5, "C12_Returns C12_ReaderEnds"),
+    "live_disc":  ("ScriptDisc", 2, 0, 1, 0, 0, 5, "C12_Returns C12_ReaderEnds"),
 }
-LIVE_FOR = {"C01": ["live_one", "live_f4"], "C10": ["live_one", "live_f4"], "C11": ["live_req"], "C12": ["live_close"], "C03": ["live_f4"]}
+LIVE_FOR = {"C01": ["live_one", "live_f4"], "C10": ["live_one", "live_f4"], "C11": ["live_req"], "C12": ["live_close", "live_disc"], "C03": ["live_f4"]}
 
 
 def tlc_liveness(ctx, name, dev=""):
     sc, conns, dial, write, read, store, calls, props = LIVE[name]
-    cfg = ("CONSTANTS Script <- %s Script2 <- NoGen2 MaxStops = 0 MaxDamage = 0 DEV_F2 = FALSE DEV_F10 = FALSE DEV_F19 = FALSE DEV_F25 = FALSE InMsgs <- NoIn AMax = 2 EMax = 2 MaxConns = %d DialFails = %d WriteFails = %d ReadFails = %d StoreFails = %d "
+    cfg = ("CONSTANTS Script <- %s Script2 <- NoGen2 MaxStops = 0 MaxDamage = 0 DEV_F2 = FALSE DEV_F10 = FALSE DEV_F19 = FALSE DEV_F25 = FALSE Blocking = FALSE InMsgs <- NoIn AMax = 2 EMax = 2 MaxConns = %d DialFails = %d WriteFails = %d ReadFails = %d StoreFails = %d "
            "MaxCalls = %d RecordHist = FALSE DEV_F4 = %s DEV_F6 = %s SampleK = 1\nSPECIFICATION LiveSpec\nPROPERTIES %s\nCHECK_DEADLOCK FALSE\n") % (
         sc, conns, dial, write, read, store, calls, "TRUE" if dev == "F4" else "FALSE", "TRUE" if dev == "F6" else "FALSE", props)
     cfgname = "MC_client_%s%s_gen.cfg" % (name, dev)
@@ -278,10 +290,10 @@ def tlc_behaviours(ctx, name, cap):
     k = c["k_quick"] if ctx.tier == "quick" else c["k_thorough"]
     dev = c.get("dev", "")
     cfg = ("CONSTANTS Script <- %s Script2 <- " + c.get("script2", "NoGen2") + (" MaxStops = %d MaxDamage = %d" % (c.get("stops", 0), c.get("damage", 0)))
-           + "".join(" DEV_%s = %s" % (f, "TRUE" if f == dev else "FALSE") for f in ("F2", "F10", "F19", "F25"))
+           + "".join(" DEV_%s = %s" % (f, "TRUE" if f == dev else "FALSE") for f in ("F2", "F10", "F19", "F25")) + " Blocking = FALSE"
            + " InMsgs <- " + c.get("inmsgs", "NoIn") + " AMax = %d EMax = %d MaxConns = %d DialFails = %d WriteFails = %d ReadFails = %d "
            "StoreFails = %d MaxCalls = %d RecordHist = TRUE DEV_F4 = FALSE DEV_F6 = FALSE SampleK = %d\n"
-           "SPECIFICATION Spec\nVIEW view\nINVARIANTS %s\nCHECK_DEADLOCK FALSE\nACTION_CONSTRAINT %s\n") % (
+           "SPECIFICATION Spec\nVIEW view\nINVARIANTS %s\nPROPERTIES C08_NothingAfterIncomplete\nCHECK_DEADLOCK FALSE\nACTION_CONSTRAINT %s\n") % (
         c["script"], c["amax"], c["emax"], c["conns"], c["dial"], c["write"], c["read"], c["store"], c["calls"], k,
         "TypeOK" if c.get("bad") else INVARIANTS, "ExportBad" if c.get("bad") else "ExportStep")
     cfgname = "MC_client_%s_gen.cfg" % name
@@ -297,6 +309,8 @@ def tlc_behaviours(ctx, name, cap):
     script2 = pipeline.parse_cases(res.out, "SCRIPT2")[0]
     if not isinstance(script2, dict):
         script2 = {}
+    inmsgs = pipeline.parse_cases(res.out, "INMSGS")[0]
+    SCRIPTS[name] = (script, script2, inmsgs if isinstance(inmsgs, list) else [])
     steps = [x["steps"] for x in cases]
     keys = [json.dumps(x, sort_keys=True, separators=(",", ":")) for x in steps]
     # a behaviour that is a prefix of another exported one is covered by it
@@ -310,27 +324,26 @@ def tlc_behaviours(ctx, name, cap):
     rnd = random.Random(ctx.seed)
     rnd.shuffle(maximal)
     maximal = maximal[:cap]
-    procs = {"rd": {"kind": "reader"}}
-    for p, ops in script.items():
-        if ops:
-            procs[p] = {"kind": "script", "ops": [{"m": o["m"], "tag": o["tag"], "size": 8, "filters": ["a/b"], "quit": "nil"} for o in ops]}
     def mkprocs(sc, reader):
         r = {reader: {"kind": "reader"}}
         for p, ops in sc.items():
             if ops:
-                r[p] = {"kind": "script", "ops": [{"m": o["m"], "tag": o["tag"], "size": 8, "filters": ["a/b"], "quit": "nil"} for o in ops]}
+                r[p] = {"kind": "script", "ops": [{"m": o["m"], "tag": o["tag"], "size": 8, "filters": ["a/b"], "quit": o.get("quit", "nil")} for o in ops]}
         return r
+    procs = mkprocs(script, "rd")
     for st in maximal:
         reader = "rd"
         later = {}
         for step in reversed(st):   # the gate each process is at after its step = the gate of its next step
-            if "p" in step:
+            if "p" in step and "at" in step:
                 if step["p"] in later:
                     step["next"] = later[step["p"]]
                 later[step["p"]] = step["at"]
             elif step.get("env") == "stop":
                 later = {}
         for step in st:
+            if step.get("o") == "part":        # deadline expiry after one byte: the library continues with the rest
+                step["o"], step["n"] = "timeout", 1
             if step.get("env") == "bsend":
                 step["pkt"].update({"topic": "in/t", "len": 8})
             elif step.get("env") == "adopt":
@@ -344,6 +357,151 @@ def tlc_behaviours(ctx, name, cap):
         ctx.cov["exhaustive_configs"] = ctx.cov.get("exhaustive_configs", []) + [name]
     return [dict({"id": "mc-%s-%d" % (name, i), "cfg": {"amax": c["amax"], "emax": c["emax"]}, "procs": procs, "steps": st,
                   "epilogue": "drain"}, **({"dev": dev} if c.get("bad") else {})) for i, st in enumerate(maximal)]
+
+
+def utxwrap():
+    """One long history in free mode: two SUBSCRIBEs with adjacent identifiers stay unanswered (slow broker) while a third
+    process completes 8 194 requests, so that the 13-bit counter of the unordered transactions wraps onto them."""
+    return {"id": "utxwrap-0", "cfg": {"amax": 2, "emax": 2}, "mute": ["SUBACK-hold"], "epilogue": "drain", "waitfor": ["wC"],
+            "procs": {"rd": {"kind": "reader"},
+                      "wA": {"kind": "script", "ops": [{"m": "Subscribe", "tag": 1, "quit": "nil", "filters": ["hold/a"]}]},
+                      "wB": {"kind": "script", "ops": [{"m": "Subscribe", "tag": 2, "quit": "nil", "filters": ["hold/b"]}]},
+                      "wC": {"kind": "script", "delay": 300, "repeat": 8194,
+                             "ops": [{"m": "Subscribe", "tag": 3, "quit": "nil", "filters": ["c"]}]}}}
+
+
+def stallclose(k):
+    """Free mode: the broker stops reading the first connection after k client writes (during the resend of two
+    pending publishes); Close is called while the read routine is blocked in that write and has to return."""
+    return lambda: {"id": "stallclose-%d" % k, "cfg": {"amax": 2, "emax": 2}, "stallafter": k, "epilogue": "drain",
+                    "procs": {"rd": {"kind": "reader"},
+                              "v1": {"kind": "script", "ops": [{"m": "PublishAtLeastOnce", "tag": 1, "size": 8},
+                                                               {"m": "PublishExactlyOnce", "tag": 2, "size": 8}]},
+                              "c1": {"kind": "script", "delay": 150, "ops": [{"m": "Close", "quit": "nil"}]}}}
+
+
+EXTRA = {"C17": [utxwrap], "C12": [stallclose(1), stallclose(2)]}
+
+
+SCRIPTS = {}   # instance name -> (script, script of the second generation, inbound messages), as TLC printed them
+
+
+def conformance(ctx, binary, names, per):
+    """Code -> model: seeded schedules of the explorer over the scripts of the bounded instances, restricted to the
+    vocabulary of the specification, validated step by step against the actions of MqttClient (spec/ClientTrace.tla)."""
+    rnd = random.Random(ctx.seed * 31 + vlib.stable_hash(ctx.prop))
+    total = dict(executions=0, steps=0, rejected=0, select_races=0)
+    reasons = {}
+    for name in names:
+        c = MC[name]
+        if name not in SCRIPTS or c.get("bad") or c.get("damage"):
+            continue
+        script, script2, inmsgs = SCRIPTS[name]
+        def mk(sc, reader):
+            r = {reader: {"kind": "reader"}}
+            for p, ops in sc.items():
+                if ops:
+                    r[p] = {"kind": "script", "ops": [{"m": o["m"], "tag": o["tag"], "size": 8, "filters": ["a/b"], "quit": o.get("quit", "nil")} for o in ops]}
+            return r
+        behs = []
+        for i in range(per):
+            rd = {"seed": rnd.randrange(1 << 30), "max": 300, "plain": True, "faults": rnd.choice([0, 1, 2, 3]),
+                  "pwrite": 0.2, "pdial": 0.15, "pstore": 0.1 if c["store"] else 0.0, "pbreak": 0.1, "pstall": 0.0,
+                  "pquit": 0.1, "inbound": [{"qos": m["qos"], "tag": m["tag"], "size": 8, "after": False} for m in inmsgs]}
+            if c.get("stops"):
+                rd.update({"gens": [mk(script2, "rd2")], "pstop": 0.02, "pstopio": 0.05})
+            behs.append({"id": "conf-%s-%d" % (name, i), "cfg": {"amax": c["amax"], "emax": c["emax"]}, "procs": mk(script, "rd"),
+                         "epilogue": "drain", "random": rd})
+        shards = pipeline.run_worker(ctx, binary, "run", behs, nshards=4, timeout=900)
+        paths = []
+        for k, (sb, tp) in enumerate(shards):
+            out = tp + ".conf"
+            with open(out, "w") as o:
+                pending = None    # the last process step, waiting for the gate its process reaches next
+                def flush():
+                    nonlocal pending
+                    if pending is not None:
+                        o.write(json.dumps(pending, separators=(",", ":")) + "\n")
+                        pending = None
+                for line in open(tp):
+                    e = json.loads(line)
+                    k_ = e.get("e")
+                    if k_ == "reset":
+                        flush()
+                        o.write(json.dumps({"e": "reset", "case": e["case"]}) + "\n")
+                    elif k_ == "step":
+                        flush()
+                        if "env" not in e:
+                            pending = {"e": "step", "kind": "proc", "p": e["p"], "at": e["at"], "o": e["o"], "n": e.get("n", 0),
+                                       "next": "?", "seq": e["seq"]}
+                        elif e["env"] == "inject":
+                            o.write(json.dumps({"e": "step", "kind": "inject", "seq": e["seq"]}) + "\n")
+                        elif e["env"] == "adopt":
+                            o.write(json.dumps({"e": "step", "kind": "restart", "seq": e["seq"]}) + "\n")
+                        elif e["env"] == "quit":
+                            o.write(json.dumps({"e": "step", "kind": "quit", "p": e["p"], "seq": e["seq"]}) + "\n")
+                    elif k_ in ("cr", "cw") and pending is not None and e.get("p") == pending["p"] and pending["at"] in ("conn.Read", "conn.Write"):
+                        # the outcome that took effect (a connection closed meanwhile overrides what the explorer asked for)
+                        eff = {"": "ok", "closed": "closed", "hard": "err", "timeout": "timeout", "eof": "eof"}.get(e.get("err", ""), pending["o"])
+                        if not (eff == "ok" and pending["o"] == "n"):
+                            pending["o"] = eff
+                        if eff == "timeout":
+                            pending["n"] = e.get("n", 0)
+                    elif k_ == "gate" and pending is not None and e.get("p") == pending["p"]:
+                        pending["next"] = e["site"]
+                        flush()
+                    elif k_ == "exit" and pending is not None and e.get("p") == pending["p"]:
+                        pending["next"] = ""
+                        flush()
+                    elif k_ == "snap":
+                        flush()
+                        e2 = {f: e[f] for f in ("acked", "received", "completed", "accept1", "accept2", "submit1", "submit2", "q1", "q2",
+                                                "pack", "wsem", "csem", "ping", "utx", "online", "offline", "seq")}
+                        e2["e"] = "snap"
+                        o.write(json.dumps(e2, separators=(",", ":")) + "\n")
+                    elif k_ in ("epilogue", "harness-panic"):
+                        flush()
+                        o.write(json.dumps({"e": "end"}) + "\n")
+                flush()
+            paths.append(out)
+        cfgname = "ClientTrace_%s.cfg" % name
+        def one(i):
+            cwd = ctx.specdir("conf-%s-%d" % (name, i))
+            with open(os.path.join(cwd, cfgname), "w") as f:
+                f.write(("CONSTANTS Script <- %s Script2 <- %s MaxStops = %d MaxDamage = 0 DEV_F2 = FALSE DEV_F10 = FALSE DEV_F19 = FALSE "
+                         "DEV_F25 = FALSE DEV_F4 = FALSE DEV_F6 = FALSE Blocking = TRUE InMsgs <- %s AMax = %d EMax = %d MaxConns = 50 DialFails = 50 "
+                         "WriteFails = 50 ReadFails = 50 StoreFails = 50 MaxCalls = 1000 RecordHist = FALSE SampleK = 1\n"
+                         "SPECIFICATION TSpec\nCHECK_DEADLOCK FALSE\n") % (
+                    c["script"], c.get("script2", "NoGen2"), 1 if c.get("stops") else 0, c.get("inmsgs", "NoIn"), c["amax"], c["emax"]))
+            rp = paths[i] + ".result.json"
+            res = ctx.tlc("ClientTrace", cfgname, workers=1, timeout=900, cwd=cwd, env={"VERIF_TRACE": paths[i], "VERIF_RESULT": rp}, count=False)
+            if not os.path.exists(rp):
+                raise vlib.Inconclusive("ClientTrace produced no result for %s: %s" % (name, (res.error or res.out[-1500:])))
+            with open(rp) as f:
+                return json.loads(f.readline())
+        import concurrent.futures as cf
+        with cf.ThreadPoolExecutor(max_workers=4) as ex:
+            results = list(ex.map(one, range(len(paths))))
+        for (sb, tp), r in zip(shards, results):
+            total["executions"] += len(sb)
+            total["steps"] += r["steps"]
+            for cid, seq, why in r["bad"]:
+                ev = None
+                for line in open(tp):
+                    if ('"case":%d,' % cid) in line and ('"seq":%d,' % seq in line or '"seq":%d}' % seq in line):
+                        ev = json.loads(line)
+                        break
+                at = (ev or {}).get("at", "")
+                if at in ("lw.wait",) or at.startswith("abort."):
+                    total["select_races"] += 1
+                    continue
+                total["rejected"] += 1
+                key = "%s: %s at %s" % (name, why, at or (ev or {}).get("e", "?"))
+                reasons[key] = reasons.get(key, 0) + 1
+                if sum(reasons.values()) <= 6:
+                    ctx.save_replay("rejected-%s.json" % sb[cid - 1]["id"],
+                                    {"behaviour": scripted_from_trace(sb[cid - 1], tp, cid), "rejected": {"seq": seq, "why": why, "event": ev}})
+    ctx.cov["code_to_model"] = dict(total, reasons=reasons)
 
 
 def behaviours(ctx, families):
@@ -370,10 +528,12 @@ def run(ctx, replay=None):
         # fall again, so the behaviour is executed several times side by side
         behs = [dict(data["behaviour"], id="%s#%d" % (data["behaviour"]["id"], k)) for k in range(8)]
     else:
-        behs = behaviours(ctx, fams)
+        behs = behaviours(ctx, fams) + [f() for f in EXTRA.get(ctx.prop, [])]
         mcs = MC_FOR.get(ctx.prop, [])
         cap = (1200 if ctx.tier == "quick" else 12000) // max(1, len(mcs))
         for name in mcs:
+            if MC[name].get("thorough_only") and ctx.tier == "quick":
+                continue
             behs += tlc_behaviours(ctx, name, cap)
         # behaviours that once exposed a finding (recorded schedules); several copies: Go's select is random
         cdir = os.path.join(vlib.VERIF, "corpus", ctx.prop)
@@ -386,6 +546,7 @@ def run(ctx, replay=None):
             tlc_liveness(ctx, name)   # temporal clauses of the property on the design, under fairness
         if mcs:
             ctx.level = "model_checking"
+            conformance(ctx, binary, mcs, 30 if ctx.tier == "quick" else 300)
     if not behs:
         raise vlib.Inconclusive("no behaviours")
     execute_and_judge(ctx, binary, behs)
